@@ -1,5 +1,6 @@
 (* C11 — what the correspondence check evaluates on every case. *)
-From Yv Require Export Common.Base C11.Model C11.Spec C11.ScriptModel C11.ScriptSpec.
+From Yv Require Export Common.Base C11.Model C11.Spec C11.ScriptModel C11.ScriptSpec
+  C11.WaitModel C11.WaitSpec C11.TrapCmd.
 
 (* One case: the conditions in play with their initial dispositions (sorted
    by number), and the history of (operation, what the implementation did). *)
@@ -13,6 +14,9 @@ From Yv Require Export Common.Base C11.Model C11.Spec C11.ScriptModel C11.Script
 Inductive bstep :=
 | BTrapCmd (conds : list N) (a : action) (valid : bool) (status_ok : bool)
            (obs : list (N * sobs))
+(* `command trap WORD...` given by its operands as the built-in's lexical
+   tests see them (TrapCmd.v), with the exact exit status *)
+| BTrapWords (ws : list word) (status : N) (obs : list (N * sobs))
 | BDeliver (c : N) (hits : list N) (obs : list (N * sobs)).
 
 Inductive case :=
@@ -30,6 +34,10 @@ Inductive case :=
    INT/TERM/QUIT and TSTP/TTIN/TTOU at startup) entered with some signals
    ignored; see [bstep] *)
 | CBuiltin (interactive : bool) (univ : list (N * disp)) (steps : list bstep) (complete : bool)
+(* stream D: the `wait` built-in interrupted by trapped signals: the table of
+   action arguments, the script, the events of the children in the order of
+   virtual time, the recorded trace, and whether the main shell was killed *)
+| CWait (atbl : list (N * N)) (cs : list wcmd) (evs : list wev) (trace : list wevt) (dead : bool)
 (* the implementation panicked (or the shell hung) on the input described in
    the case's JSON *)
 | CPanic (stream : N).
@@ -188,6 +196,7 @@ Fixpoint run_bsteps (inter : bool) (keys : list N) (g : gstate) (sps : list (N *
                 && Bool.eqb ok (valid && negb (existsb hard_error rs)) in
               run_bsteps inter keys g' sps' new steps (mismatch || negb agree)
         end
+  | BTrapWords _ _ _ :: _ => 99%N      (* lowered to BTrapCmd before *)
   | BDeliver c hits new :: steps =>
       let deliverable :=
         negb (N.eqb c SIGKILL) && negb (N.eqb c SIGSTOP) && is_signal c &&
@@ -233,6 +242,33 @@ Fixpoint run_bsteps (inter : bool) (keys : list N) (g : gstate) (sps : list (N *
           end
   end.
 
+(* ---- `trap` given by its operand words: interpreted by TrapCmd.interpret ------------------- *)
+(* numbers used as operands: a condition in play, or 9999 (no such signal) *)
+Definition words_ok (keys : list N) (ws : list word) : bool :=
+  forallb (fun w => match w with
+                    | WNum n => mem n keys || N.eqb n 9999
+                    | WName c => mem c keys
+                    | _ => true
+                    end) ws
+  && match ws with WName _ :: _ | WOther :: _ => false | _ => true end.
+
+(* the step as a BTrapCmd, whether its exit status has the right shape, and
+   whether it is inside the domain *)
+Definition lower_step (keys : list N) (s : bstep) : bstep * bool * bool :=
+  match s with
+  | BTrapWords ws st new =>
+      let known := fun n => mem n keys in
+      match interpret known ws with
+      (* printing also reads (and so creates) every condition's entry: not generated *)
+      | TPrintAll => (BTrapCmd [] ADefault true (N.eqb st 0) new, N.eqb st 0, false)
+      | TSyntaxError soft =>
+          (BTrapCmd [] ADefault false (N.eqb st 0) new, N.eqb st (if soft then 1 else 2), words_ok keys ws)
+      | TSet a conds =>
+          (BTrapCmd conds a true (N.eqb st 0) new, N.eqb st 0 || N.eqb st 1, words_ok keys ws)
+      end
+  | _ => (s, true, true)
+  end.
+
 (* what an interactive shell with job control installs at startup
    (yash-cli/src/startup.rs configure_environment) *)
 Definition startup_gops (inter : bool) : list gop :=
@@ -248,7 +284,31 @@ Definition run_builtin_case (inter : bool) (univ : list (N * disp)) (steps : lis
     let g0 := fold_left gstep (startup_gops inter) (ginit univ) in
     let ops0 := flat_map (fun o => resolve o ROk) (startup_gops inter) in
     let sps0 := map (fun p => (fst p, spec_steps true (fst p) (snd p) ops0 ROk)) (spec_inits univ) in
-    run_bsteps inter keys g0 sps0 (map (fun p => (fst p, observe (snd p))) g0) steps false.
+    let lowered := map (lower_step keys) steps in
+    if negb (forallb (fun x => snd x) lowered) then 99%N
+    else
+      match run_bsteps inter keys g0 sps0 (map (fun p => (fst p, observe (snd p))) g0)
+                       (map (fun x => fst (fst x)) lowered) false with
+      | 0%N => if forallb (fun x => snd (fst x)) lowered then 0%N else 13%N
+      | 1%N => if forallb (fun x => snd (fst x)) lowered then 1%N else 13%N
+      | v => v
+      end.
+
+(* ---- stream D: `wait` interrupted by trapped signals -------------------------------- *)
+Definition run_wait_case (atbl : list (N * N)) (cs : list wcmd) (evs : list wev)
+    (trace : list wevt) (dead : bool) : verdict :=
+  if negb (wait_case_ok cs evs) then 99%N
+  else
+    (* oracle first: the specification against the recorded trace *)
+    match wait_oracle atbl cs evs trace dead with
+    | Some k => (30 + k)%N
+    | None =>
+        let '(e, t) := wrun wait_loop atbl cs evs in
+        match e with
+        | EndStuck => 99%N
+        | _ => if list_eqb wevt_eqb t trace && Bool.eqb dead (wend_eqb e EndKilled) then 0%N else 1%N
+        end
+    end.
 
 Definition run_case (c : case) : verdict :=
   match c with
@@ -258,6 +318,7 @@ Definition run_case (c : case) : verdict :=
       if negb (forallb body_ok tbl) then 99%N
       else match monitor true tbl trace dead with Some k => (20 + k)%N | None => 0%N end
   | CBuiltin inter univ steps complete => run_builtin_case inter univ steps complete
+  | CWait atbl cs evs trace dead => run_wait_case atbl cs evs trace dead
   | CPanic _ => 12%N
   end.
 
